@@ -7,7 +7,7 @@ import tx
 from impl import trees, transform, quiet, clone, tag_uids
 
 ID = "C04"
-MODULE = ['TT.Props.C04', 'TT.Props.Pinned', 'TT.Props.C04Total', 'TT.Props.C03Cmd']
+MODULE = ['TT.Props.C04', 'TT.Props.Pinned', 'TT.Props.C04Total', 'TT.Props.C03Cmd', 'TT.Props.C03Conv19']
 RULE = ("random well-formed trees (1..10 tokens; discontinuous; unary chains incl. at the root and above tokens; "
         "planted punctuation incl. punctuation-only constituents) x each structural transformation with its "
         "prerequisites, and prerequisite-respecting sequences of up to 7 transformations drawn from the automaton "
